@@ -399,6 +399,7 @@ class MeshTri1(MeshSimplex, Mesh2D):
             points = np.zeros((3, 0), dtype=np.float64)
             wedges = np.zeros((6, 0), dtype=np.int32)
             diff = 0
+            gaps = other._gaps()
             for i, p in enumerate(np.sort(other.p[0])):
                 points = np.hstack((
                     points,
@@ -406,7 +407,8 @@ class MeshTri1(MeshSimplex, Mesh2D):
                     np.vstack((self.p[:, :self.nvertices],
                                np.array(self.nvertices * [p])))
                 ))
-                if i == len(other.p[0]) - 1:
+                if i == len(other.p[0]) - 1 or i in gaps:
+                    # no element of the line mesh above this layer
                     pass
                 else:
                     wedges = np.hstack((
